@@ -32,7 +32,7 @@ TERMINALS = [
         'C': {1: [('U', .75), ('L', .25)], 2: [('LL', .4), ('UL', .4), ('UU', .2)]},
         'D': {1: [('1', .6), ('2', .4)], 2: [('12', 1.0)]},
         'O': {1: [('!', 1.0)]},
-        'K': {4: [('1qaz', 1.0)]},
+        'K': {4: [('1qaz', .5), ('1QAZ', .3), ('!QAZ', .2)]},      # walks are stored as typed: --all_lower concerns the C masks only
         'Y': [('2019', 1.0)], 'X': [('#1', 1.0)],
     },
     {   # tails of tiny probabilities and neighbouring doubles: adjacent values closer than any absolute tolerance are still different groups
